@@ -100,6 +100,22 @@ def _same(a, b):
     return a == b and type(a) is type(b)
 
 
+def _name_of_a():
+    return "a"
+
+
+def _task_like():
+    return (len, "abc")
+
+
+def _key_list():
+    return ["a", "b"]
+
+
+def _pair(x, y):
+    return (x, y)
+
+
 def _total(a):
     return float(a.sum())
 
@@ -133,6 +149,8 @@ def cache_sweep(tier, seed=0):
         ({"x": (inc, 1), "y": (inc, "x"), "z": (add, "y", "x"), "w": (add, "z", 10), "v": (inc, "w")}, [["z", "v"], "v", ["y", "w"]]),
         # intermediate results that occupy zero bytes (an empty NumPy array) and falsy results (0, '')
         ({"e": (_empty_array,), "s": (_total, "e"), "t": (add, "s", 1), "n": (add, "s", 0), "u": (str.strip, " ")}, ["t", ["s", "t"], ["n", "u"], ["u"]]),
+        # results that LOOK like graph terms: a string equal to another key, a tuple headed by a callable, a list of key names
+        ({"a": (inc, 99), "b": (_name_of_a,), "c": (_task_like,), "d": (_pair, "b", "c"), "k": (_key_list,)}, [["a", "b"], ["b", "c", "d"], "d", ["k", "a"]]),
     ]
     try:
         for dsk, requests in graphs:
@@ -191,7 +209,7 @@ def cache_sweep(tier, seed=0):
         if stubbed:
             sys.path.remove(stub_dir)
     return {"function": "dask/cache.py:Cache (real code; third-party `cachey` replaced by a small stand-in: stated assumption)", "bounded": True,
-            "bound": {"graphs": "4 (one with zero-byte and falsy results)", "capacities": [1e9, 400, 200, 120], "rounds reusing the cache": 3, "schedulers": "sync, threaded"},
+            "bound": {"graphs": "5 (one with zero-byte and falsy results, one whose results look like keys / tasks)", "capacities": [1e9, 400, 200, 120], "rounds reusing the cache": 3, "schedulers": "sync, threaded"},
             "cases": cases, "distinct_nontrivial": cases, "failures_found": len(fails), "wall_s": round(time.time() - t0, 2),
             "samples": [{"native_case": {"request": ["c", "d"], "capacity": 200, "round": 1}}], "failures": fails[:4]}
 
